@@ -1,5 +1,6 @@
 import CogentModel.Proofs.OptGen
 import CogentModel.Props.C16
+import CogentModel.Props.C16Clamp
 /-! # C16 — the optimiser stack as TRANSLATED from the current source, and the likelihood-function level
 
 `Gen/C16Opt.lean` is produced on every run by `translator/c16_opt2lean.py` from the source text of
@@ -93,6 +94,36 @@ theorem translated_calculator_optimise_is_model (env : Env X Y)
          calcRes (Optimiser.maximise (toCfg env (some (env.boundsLow, env.boundsHigh)) maxE) (startOf env)
                   (queriesFor local_ env.qsG env.qsL)).final.exc) :=
   calc_optimise_eq env hneg local_ maxE g hcalls
+
+/-- **`start_clamp_in_bounds` for the TRANSLATED code.**  In any environment whose array operations are numpy's
+boolean-mask operations on vectors (`C16Clamp.MaskLaws`; `C16Clamp.listEnv_laws` is one), the vector the translated
+`Calculator.optimise` hands to `maximise` (`clampX env`, see `translated_calculator_optimise_is_model`) is `clampStart` of the
+calculator's values and bounds (`C16Clamp.gen_clampX_is_clampStart`); so, under the hypotheses of `start_clamp_in_bounds`,
+it passes `bounded_function`'s test against the very bounds that are passed on, and a vector already within bounds is
+handed on unchanged. -/
+theorem translated_start_clamp_in_bounds {R : Type} [LinearOrder R] (env : Env X Y) (rep : X → List R) (repM : X → List Bool)
+    (close : R → R → Bool) (L : C16Clamp.MaskLaws env rep repM (fun a b => decide (a < b)) close) (v : List (Coord R))
+    (hx : rep env.valueArray = v.map (·.x)) (hlo : rep env.boundsLow = v.map (·.lo)) (hhi : rep env.boundsHigh = v.map (·.hi))
+    (hlohi : ∀ c ∈ v, c.lo ≤ c.hi)
+    (hL : v.all (fun c => !(decide (c.x < c.lo)) || close c.x c.lo) = true)
+    (hH : (clampLow (fun a b => decide (a < b)) close v).all (fun c => !(decide (c.hi < c.x)) || close c.x c.hi) = true) :
+    ∃ w : List (Coord R), rep (clampX env) = w.map (·.x) ∧ w.map (·.lo) = rep env.boundsLow ∧ w.map (·.hi) = rep env.boundsHigh ∧
+      inBounds (fun a b => decide (a < b)) w = true ∧
+      (inBounds (fun a b => decide (a < b)) v = true → rep (clampX env) = rep env.valueArray) := by
+  refine ⟨clampStart (fun a b => decide (a < b)) close v,
+    C16Clamp.gen_clampX_is_clampStart env rep repM _ close L v hx hlo hhi, ?_, ?_,
+    (start_clamp_in_bounds close v hlohi hL hH).1, ?_⟩
+  · rw [hlo]; exact (C16Clamp.clampStart_bounds _ close v).1
+  · rw [hhi]; exact (C16Clamp.clampStart_bounds _ close v).2
+  · intro hin
+    rw [C16Clamp.gen_clampX_is_clampStart env rep repM _ close L v hx hlo hhi, (start_clamp_in_bounds close v hlohi hL hH).2 hin, hx]
+
+/-- the same, evaluated: the translated clamp on the list environment, `allclose` = "differs by at most 1" -/
+example : (clampX (OptGenClamp.listEnv (fun a b : Int => decide (a < b)) (fun a b => decide (a - b ≤ 1 ∧ b - a ≤ 1))
+    [4, 11, 7] [5, 0, 0] [9, 10, 9])).rep = [5, 10, 7] := by decide
+/-- one coordinate too far below: the `low` clamp is skipped as a whole, the `high` clamp still applies -/
+example : (clampX (OptGenClamp.listEnv (fun a b : Int => decide (a < b)) (fun a b => decide (a - b ≤ 1 ∧ b - a ≤ 1))
+    [4, 11, 1] [5, 0, 5] [9, 10, 9])).rep = [4, 10, 1] := by decide
 
 /-- **the translated `ParameterController.optimise` is the hand model `lfOptimise`**: `local`,
 `max_evaluations` are forwarded, `MaximumEvaluationsReached` is turned into nothing / a warning /
